@@ -343,13 +343,14 @@ func sectionD(r *hlib.Run, general, hist bool) {
 		lzmaFamily := in.codec == "lzma" || in.codec == "lzip" || in.codec == "xz"
 		hex := hlib.Hex(in.data)
 		pre := "run " + in.codec + " "
-		// std/lzma has a second known defect (KNOWN_FINDINGS, key
+		// std/lzma had a second defect (KNOWN_FINDINGS, fixed: fixes/C05-lzma-short-workbuf-gate.patch; was key
 		// split-dependent:lzma-bad-workbuf-length-on-suspension): with a work buffer shorter than
 		// dict_size + 273 (which is what workbuf_len() reports until the dictionary size is known;
-		// "$short workbuf" is how the caller learns the real size) transform_io answers
-		// "#base: bad workbuf length" if it suspends after having written a byte and before
-		// reaching that "$short workbuf" yield. The general sweep gives these three codecs a work
-		// buffer that is large enough from the start; the defect has its own run below.
+		// "$short workbuf" is how the caller learns the real size) transform_io answered
+		// "#base: bad workbuf length" if it suspended after having written a byte and before
+		// reaching its "$short workbuf" yield. The general sweep gives these three codecs a work
+		// buffer that is large enough from the start (the same for one-shot and split runs); runs
+		// with a lazily sized one (work=auto) are added below and in stdhist.go, and are strict.
 		if lzmaFamily {
 			pre += "work=16778240 "
 		}
@@ -388,9 +389,14 @@ func sectionD(r *hlib.Run, general, hist bool) {
 			if lzmaFamily && in.kind == "valid" && n >= 8 {
 				// work=auto: as small as workbuf_len() allows, grown on "$short workbuf"
 				j.cmds = append(j.cmds, fmt.Sprintf("run %s src=%d,%s %s", in.codec, n/2, big, hex))
-				j.kinds = append(j.kinds, "known:lzma-workbuf")
+				j.kinds = append(j.kinds, "lzma-workbuf-auto")
 				j.cmds = append(j.cmds, fmt.Sprintf("run %s src=%d,%s %s", in.codec, 28, big, hex))
-				j.kinds = append(j.kinds, "known:lzma-workbuf")
+				j.kinds = append(j.kinds, "lzma-workbuf-auto")
+				// since the repair: also bytewise, source (one destination that holds everything) and destination
+				j.cmds = append(j.cmds, fmt.Sprintf("run %s src=1 dst=1048576 %s", in.codec, hex))
+				j.kinds = append(j.kinds, "lzma-workbuf-auto")
+				j.cmds = append(j.cmds, fmt.Sprintf("run %s dst=1 %s", in.codec, hex))
+				j.kinds = append(j.kinds, "lzma-workbuf-auto")
 			}
 			nMulti := 4
 			if !r.Thorough {
@@ -529,7 +535,7 @@ func sectionD(r *hlib.Run, general, hist bool) {
 				key := "split-dependent:" + j.in.codec + ":" + j.in.kind
 				if j.kinds[k] == "known:lzma-dst-reuse" {
 					key = "split-dependent:lzma-dst-reused-after-replacement"
-				} else if j.kinds[k] == "known:lzma-workbuf" && rr.status == "#base:_bad_workbuf_length" {
+				} else if j.kinds[k] == "lzma-workbuf-auto" && rr.status == "#base:_bad_workbuf_length" {
 					key = "split-dependent:lzma-bad-workbuf-length-on-suspension"
 				} else if j.in.codec == "xz" && xzHasNonFinalFilters(j.in.data) && rr.crash == "" {
 					// third known defect: std/xz's BCJ (non-final) filters mis-convert around a
